@@ -72,3 +72,47 @@ def tracked_array_battery():
         m = _script(T.SymTrackedArray, lambda: T.NP.array([0.0, 1.0, 2.0, 3.0, 4.0]), T.NP)
     norm = lambda x: tuple('ndarray' if v == 'SymNDArray' else v for v in x)   # noqa: E731
     return [(a, b) for a, b in zip(r, m) if norm(a) != norm(b)], len(r)
+
+
+def np_extra_battery():
+    """the additional numpy functions of the model (npshim._extra_np) against the installed numpy on concrete arrays;
+    -> (list of disagreements, number of comparisons)"""
+    from . import trace as T
+    from .oblig import reset_ctx
+    from .trace import Env, concretize_array
+    import numpy as np
+    a1 = [1.5, -2.0, 0.25, 4.0, -0.5]
+    b1 = [0.5, 3.0, -1.0, 2.0, 8.0]
+    a2 = [[1.0, 2.0, -3.0], [0.5, -0.25, 4.0]]
+    cases = [
+        ('zeros_like', lambda n, x, y, z: n.zeros_like(x)), ('ones_like', lambda n, x, y, z: n.ones_like(z)),
+        ('full', lambda n, x, y, z: n.full((3,), 2.5)), ('full_like', lambda n, x, y, z: n.full_like(x, -1.5)),
+        ('add', lambda n, x, y, z: n.add(x, y)), ('subtract', lambda n, x, y, z: n.subtract(x, y)),
+        ('multiply', lambda n, x, y, z: n.multiply(x, y)), ('divide', lambda n, x, y, z: n.divide(x, y)),
+        ('negative', lambda n, x, y, z: n.negative(x)), ('square', lambda n, x, y, z: n.square(x)),
+        ('power', lambda n, x, y, z: n.power(y, 2)), ('reciprocal', lambda n, x, y, z: n.reciprocal(y)),
+        ('clip', lambda n, x, y, z: n.clip(x, -1.0, 2.0)), ('concatenate', lambda n, x, y, z: n.concatenate([x, y])),
+        ('concatenate2', lambda n, x, y, z: n.concatenate([z, z], axis=1)),
+        ('diff', lambda n, x, y, z: n.diff(x)), ('diff axis', lambda n, x, y, z: n.diff(z, axis=1)),
+        ('flip', lambda n, x, y, z: n.flip(x, 0)), ('flip2', lambda n, x, y, z: n.flip(z, 1)),
+        ('pad edge', lambda n, x, y, z: n.pad(x, 1, mode='edge')), ('pad reflect', lambda n, x, y, z: n.pad(x, 1, mode='reflect')),
+        ('pad constant', lambda n, x, y, z: n.pad(x, 1, mode='constant')),
+        ('squeeze', lambda n, x, y, z: n.squeeze(n.reshape(x, (1, 5)))), ('absolute', lambda n, x, y, z: n.absolute(x)),
+        ('atleast_1d', lambda n, x, y, z: n.atleast_1d(x)),
+    ]
+    diffs = []
+    reset_ctx()
+    env = Env([1, 1, 1], {})
+    for name, fn in cases:
+        want = np.asarray(fn(np, np.array(a1), np.array(b1), np.array(a2)), dtype=float)
+        try:
+            with T.installed():
+                got = fn(T.NP, T.NP.array(a1), T.NP.array(b1), T.NP.array(a2))
+                g = np.array(concretize_array(got, env), dtype=float).reshape(-1) if hasattr(got, 'shape') else np.array([float(got)])
+        except Exception as e:      # noqa: BLE001
+            diffs.append((name, 'model raised %s: %s' % (type(e).__name__, e)))
+            continue
+        w = want.reshape(-1)
+        if g.shape != w.shape or not np.allclose(g, w, rtol=0, atol=1e-12):
+            diffs.append((name, 'model %s numpy %s' % (g.tolist()[:6], w.tolist()[:6])))
+    return diffs, len(cases)
